@@ -136,7 +136,7 @@ func decodeContentParameter(param *openapi3.Parameter, input *RequestValidationI
 	case openapi3.ParameterInCookie:
 		var cookie *http.Cookie
 		if cookie, err = input.Request.Cookie(param.Name); err == http.ErrNoCookie {
-			found = false
+			found, err = false, nil // absent: not an error unless the parameter is required (below)
 		} else if err != nil {
 			return
 		} else {
